@@ -19,6 +19,10 @@ Inductive op :=
 | PgQuery (stream q : bytes)
 | PgBind (data : bytes)
 | PgBindRewrite (stream : bytes) (tr : list (option bytes))
+| PgParse (data : bytes)               (* NewParsePacket + Name/QueryString/Marshal *)
+| PgParseReplace (stream q : bytes)    (* ReadClientPacket + ReplaceQuery (Parse branch) + Marshal *)
+| PgExecute (data : bytes)             (* NewExecutePacket *)
+| PgSimpleQuery (stream : bytes)       (* ReadClientPacket + GetSimpleQuery *)
 | BaEncOct (d : bytes)
 | BaDecOct (d : bytes)
 | BaEncHex (d : bytes)
@@ -60,6 +64,16 @@ Definition run (o : op) : expected :=
             (do (p, _) <- read_msg s;
              do b <- new_bind_packet (p_desc p);
              replace_bind p (mk_bind (b_portal b) (b_stmt b) (b_pfmts b) (set_params (b_params b) tr) (b_rfmts b)))
+  | PgParse d =>
+      canon (fun x => x)
+            (do pp <- new_parse_packet d; do n <- parse_name pp; do q <- parse_query_string pp;
+             Ok [pp_name pp; pp_query pp; pp_num pp; concat (pp_params pp); marshal_parse pp; n; q])
+  | PgParseReplace s q =>
+      canon (fun p => [marshal p])
+            (do (p, _) <- read_msg s;
+             if byte_eqb (p_type p) PG_PARSE_TYPE then replace_parse_query p q else Ok p)
+  | PgExecute d => canon (fun '(portal, n) => [portal; be_enc 4 n]) (new_execute_packet d)
+  | PgSimpleQuery s => canon (fun q => [q]) (do (p, _) <- read_msg s; get_simple_query p)
   | BaEncOct d => XOk [encode_octal d]
   | BaDecOct d => canon (fun x => [x]) (decode_octal d)
   | BaEncHex d => XOk [pg_encode_hex d]
